@@ -115,6 +115,24 @@ def large_cases(variant, cap):
     yield "%s n,0,%d %s %s %s" % (variant, cap, fill, tail, "cp,1,0 er,1,1 as,0,1 mv,2,1" if copyable else "mv,1,0 er,1,1 ma,0,1")
 
 
+def ctor_fault_cases(variant, caps):
+    """the element constructor invoked with the arguments of emplace_back / emplace throws (suffix !c), for the element types
+    with NOEXCEPT moves (C, M) and with potentially throwing moves (T, U), every argument form the container constructs from,
+    every fill level and position; afterwards the slot is reused (retry, append, value-initialising append, copy) and the
+    container destroyed: every element object must still be alive exactly once"""
+    copyable = variant in "CTPS"
+    forms = [0, 1, 5] + ([4] if copyable else [])
+    follow = ["eb,0,8", "ebd,0", "po,0", "er,0,0", "im,0,8"] + (["pb,0,8", "cp,1,0", "as,2,0"] if copyable else ["mv,1,0"])
+    for c in caps:
+        for n in range(c + 1):
+            pre = ("%s n,0,%d n,2,1 %s" % (variant, c, " ".join("eb,0,%d" % (k + 1) for k in range(n)))).rstrip()
+            ops = ["eb,0,9~%d!c" % f for f in forms] + ["em,0,%d,9~%d!c" % (p, f) for p in range(min(n + 1, c) + 1) for f in forms]
+            for o in ops:
+                for f in follow:
+                    yield "%s %s %s" % (pre, o, f)
+                yield "%s %s %s eb,0,7" % (pre, o, o)
+
+
 def before_begin_cases(variant, caps):
     """erase / emplace / range insert at begin()-1 and begin()-2 (for an empty vector also end()-1, end()-2) from every state
     that two operations of the (reduced) alphabet reach, followed by two ordinary operations"""
@@ -406,9 +424,14 @@ def random_case(rng, length, variant=None, malformed=0.03):
         word = fmt(name, a, xs if has_list else None, None)
         if name in ("eb", "em", "in", "im", "pb", "emb") and rng.random() < 0.5:
             word += "~%d" % rng.randint(0, 5)
+        if plan is None and variant in "CMTU" and name in ("eb", "em") and rng.random() < 0.08:
+            word = word.split("~")[0] + "~%d!c" % rng.choice([0, 1, 5] + ([4] if copyable else []))
+            plan_c = True
+        else:
+            plan_c = False
         ops.append(word + ("!%d" % plan if plan is not None else ""))
         # follow the reference only when the step is certainly executed without fault; otherwise stop tracking precisely
-        if plan is None and all(x < NPOOL for x in a[:1]) and (copyable or name not in ("nf", "nl", "cp", "as", "la", "in", "pb", "ir", "il", "pr", "ea", "ba", "ia", "pa", "sr", "ps", "irb", "nfl", "nfa", "nfi", "nfv", "irs", "prs")) \
+        if plan is None and not plan_c and all(x < NPOOL for x in a[:1]) and (copyable or name not in ("nf", "nl", "cp", "as", "la", "in", "pb", "ir", "il", "pr", "ea", "ba", "ia", "pa", "sr", "ps", "irb", "nfl", "nfa", "nfi", "nfv", "irs", "prs")) \
                 and not (name in ("cp", "mv", "as", "ma", "sw") and a[1] >= NPOOL) and not (name in ("nl", "la", "il", "nfi") and len(xs) > 5) and not (name == "nfv" and a[2] >= NPOOL) \
                 and not (name == "get" and a[1] > 5):
             ref.step(name, a, xs)
@@ -439,6 +462,9 @@ def malformed_cases():
     yield "C sw,0,1 n,0,1 sw,0,1 sw,0,0 n,1,1 sw,0,3 mv,2,0 sw,0,1 sw,1,2 eb,1,1~9 sw,1,2"
     yield "Q n,0,1 in,0,1 pb,0,1 cp,1,0 nl,1,1 eb,0,1~4 eb,0,2 sw,0,1"
     yield "T n,0,1 n,1,1 sw,0,1!0"
+    yield "C n,0,1 ebd,0!c emd,0,0!c in,0,1!c pb,0,1!c eb,0,1~2!c eb,0,1~3!c po,0!c n,1,1!c eb,0,1!cc eb,0,1!"
+    yield "P n,0,1 eb,0,1!c em,0,0,1!c"
+    yield "M n,0,1 eb,0,1~4!c eb,0,1!c eb,0,1"
 
 
 class VecCheck(Check):
@@ -498,5 +524,5 @@ def self_test(n=300, seed=7):
     rng = random.Random(seed)
     for _ in range(n):
         c = random_case(rng, 20)
-        assert re.fullmatch(r"[CMTUPSQ]( [a-z]+(,[0-9_]+)+(~[0-9])?(![0-9]+)?)*", c), c
+        assert re.fullmatch(r"[CMTUPSQ]( [a-z]+(,[0-9_]+)+(~[0-9])?(![0-9]+|!c)?)*", c), c
     return True
